@@ -4,8 +4,8 @@ from .lib.match import *
 from .lib.facts import VERIF
 from .lib.paths import explore
 
-SELECT = r'^bluetoe::server::(l2cap_input|handle_\w+|error_response|check_size_and_handle_range|check_size_and_handle|check_handle|read_multiple\w*|collect_handle_uuid_tuples)$|^bluetoe::details::(read_handle|read_16bit|write_opcode)$|^bluetoe::details::(collect_attributes|collect_find_by_type_groups)::operator\(\)$|^bluetoe::service::read_primary_service_response$|^bluetoe::details::generate_attribute::access$|^bluetoe::details::attribute_value_read\w*$|characteristic_value_access$'
-UNITS = lambda u: u in ('w_inst_att', 'w_inst_enc') or u.startswith('t_att_') or u.startswith('t_server')
+SELECT = r'^bluetoe::server::(l2cap_input|handle_\w+|error_response|check_size_and_handle_range|check_size_and_handle|check_handle|read_multiple\w*|collect_handle_uuid_tuples)$|^bluetoe::details::(read_handle|read_16bit|write_opcode)$|^bluetoe::details::(collect_attributes|collect_find_by_type_groups)::operator\(\)$|^bluetoe::service::read_primary_service_response$|^bluetoe::details::generate_attribute::access$|^bluetoe::details::attribute_value_read\w*$|characteristic_value_access$|::call_(read|write)_handler$'
+UNITS = lambda u: u in ('w_inst_att', 'w_inst_enc', 'w_inst_svc') or u.startswith('t_att_') or u.startswith('t_server')
 SV = 'bluetoe::server::'
 ALSO = [('C08', ('client-mtu-guard',))]   # clauses of this property that another module's rules decide: run here as well
 META = {
@@ -134,6 +134,9 @@ def lower_const(fn, n):
 def run(chk, facts, tier):
     spec = json.load(open(os.path.join(VERIF, 'spec', 'att.json')))
     chk.rule('dispatch-table', 'l2cap_input: every request / command / confirmation opcode of spec/att.json is dispatched to its handler, error_response gets no answer, anything else gets Error Response (request not supported) naming *input', floor=14)
+    chk.rule('handler-binder-forwards', 'the library side of the handler contract: every call_read_handler / call_write_handler binder in characteristic_value.hpp hands its own parameters to the bound function unchanged and in order '
+             '(offset first for blob handlers; non-blob handlers are called only under offset == 0), and the value-handler access passes (args.buffer_offset, args.buffer_size, args.buffer, args.buffer_size | args.client_config, args.server): '
+             'a handler never sees a larger size or another buffer than the request has', floor=28)
     chk.rule('every-exit-framed', 'each handler: on every feasible path to an exit, the paired response opcode was written together with out_size, or error_response(request opcode, ..) was called, or (no-response PDUs) out_size = 0', floor=12)
     chk.rule('error-response-shape', 'error_response writes opcode error_response, the request opcode, handle and code into output[0..4] and sets out_size 5 only if the buffer holds 5 bytes, else 0', floor=1)
     chk.rule('input-read-covered', 'every constant-offset read of the input PDU is dominated by length tests that imply in_size >= offset + width', floor=15)
@@ -412,3 +415,69 @@ def run(chk, facts, tier):
                     form = 'min(out_size, ..)'
                 ok = form is not None
                 chk.instance('output-write-bounded', fn, 'out_size = %s [%s]' % (v.text()[:40], form), ok, '' if ok else 'the reported response length is not of a bounded form', node=st, key='out_size in %s: %s' % (fn.name, v.text()[:30]))
+    binder_rule(chk, facts)
+
+
+def binder_rule(chk, facts):
+    R = 'handler-binder-forwards'
+    seen = set()
+    for fn in facts.functions:
+        if fn.kind != 'pattern' or fn.name not in ('call_read_handler', 'call_write_handler') or not fn.file.endswith('characteristic_value.hpp') or (fn.q, fn.line) in seen:
+            continue
+        seen.add((fn.q, fn.line))
+        cls = fn.cls.split('::')[-1]
+        names = [p['n'] for p in fn.params]
+        if not any(names):
+            # the "no such handler" specialisation: refuses
+            ok = bool(fn.returns()) and all(ret_value(r) is not None and ret_value(r).n in ('read_not_permitted', 'write_not_permitted') for r in fn.returns())
+            chk.instance(R, fn, '%s::%s without handler refuses' % (cls, fn.name), ok, '' if ok else 'an access without a bound handler is not refused', key='%s@%d' % (cls, fn.line))
+            continue
+        want = names[:4] if fn.name == 'call_read_handler' else names[:3]
+        # the calls that reach user code: through a template parameter F / a member pointer, or the next binder / deserialize helper
+        user = []
+        for c in fn.body.find(lambda n: n.d.get('call')):
+            cal = c.callee()
+            if cal is None or isinstance(cal, str):
+                continue
+            if (cal.k == 'BinaryOperator' and cal.o in ('.*', '->*')) or cal.n == 'F' or cal.n in ('call_read_handler', 'call_write_handler', 'deserialize'):
+                user.append(c)
+        if cls in ('free_write_handler',):
+            user = [c for c in user if c.callee().n == 'deserialize']
+        ok, why = len(user) == 1, 'expected exactly one forwarding call, found %d' % len(user)
+        if ok:
+            c = user[0]
+            a = [strip_casts(x).n for x in c.args()]
+            full = cls.startswith('invoke_')
+            if full:
+                ok = a == names
+                why = 'arguments are not the own parameters in order'
+            else:
+                blob = bool(a) and a[0] == names[0]
+                exp = want if blob else want[1:]
+                ok = a == exp
+                why = 'the bound function is called with (%s) instead of (%s)' % (', '.join(str(x) for x in a), ', '.join(exp))
+                if ok and not blob:
+                    ok = any(op == '==' and is_name(l, names[0]) and cval(r) == 0 for l, op, r in guard_atoms(fn, c))
+                    why = 'a handler without offset parameter is called for a non-zero offset (Read Blob / Prepare Write would repeat or overwrite the start of the value)'
+        chk.instance(R, fn, '%s::%s forwards %s' % (cls, fn.name, ', '.join(n for n in want)), ok, '' if ok else why, key='%s@%d' % (cls, fn.line))
+    # the caller: value_handler based characteristic access
+    seen = set()
+    for fn in facts.functions:
+        if fn.kind != 'pattern' or fn.name != 'characteristic_value_access' or (fn.q, fn.line) in seen:
+            continue
+        cs = fn.body.calls('call_read_handler') + fn.body.calls('call_write_handler')
+        if not cs:
+            continue
+        seen.add((fn.q, fn.line))
+        arg = fn.params[0]['n']
+        for c in cs:
+            a = []
+            for x in c.args():
+                x = strip_casts(x)
+                a.append(x.n if x.k == 'MemberExpr' and is_name(base_object(x), arg) else '?')
+            exp = ['buffer_offset', 'buffer_size', 'buffer', 'buffer_size', 'server'] if c.cn == 'call_read_handler' or (c.callee() is not None and not isinstance(c.callee(), str) and c.callee().n == 'call_read_handler') \
+                else ['buffer_offset', 'buffer_size', 'buffer', 'client_config', 'server']
+            ok = a == exp
+            chk.instance(R, fn, 'value handler access -> %s(%s)' % (exp and ('read' if exp[3] == 'buffer_size' else 'write'), ', '.join(a)), ok,
+                         '' if ok else 'the handler is given (%s) instead of (%s)' % (', '.join(a), ', '.join(exp)), node=c, key='caller@%d:%s' % (fn.line, exp[3]))
+
